@@ -13,7 +13,9 @@
    the unused-vote arithmetic are one definition used by both, characterised separately below and
    tied to the code by correspondence. *)
 From Coq Require Import ZArith List Bool Lia.
-From VL Require Import Model.Wrappers Proofs.Wrappers_proofs Proofs.TieBreak_proofs Proofs.WrapParts_proofs.
+From VL Require Model.Overhang.
+From VL Require Import Model.Wrappers Proofs.Wrappers_proofs Proofs.TieBreak_proofs Proofs.WrapParts_proofs
+  Proofs.WrapOverhang_proofs.
 Import ListNotations.
 Open Scope Z_scope.
 
@@ -210,7 +212,41 @@ Theorem C14_unused_seats_left : forall n res, int_dict res = true ->
   sub_gained 0 (VInt n) (VDict res) = Ok (VInt (n - sumz res)).
 Proof. exact seats_left_after_stage. Qed.
 
+(* ---- AdjustedSeatCount anywhere in a tree, around any wrapped evaluator, composed with the adjusters of Model/Overhang.v
+   (the subject of C15): if the calculator's proportional evaluator [pe] (itself any wrapper tree) answers with integer
+   distributions - seen as Model/Overhang.v's E - then AdjustedSeatCount(AllowOverhang(pe), e) / (LevelOverhang(pe), e) is
+   e evaluated with n + the adjustment of Model/Overhang.v, previous gains and seat caps unchanged *)
+Theorem C14_adjusted_allow : forall leaf conv pe e votes n prev mx E a, sees leaf conv pe votes mx E ->
+  Overhang.allow_overhang E n prev = Some a ->
+  run_spec leaf conv (AdjAllow pe e) votes (sa_npm (VInt n) (VDict (of_cz prev)) mx)
+  = run_spec leaf conv e votes (sa_npm (VInt (n + a)) (VDict (of_cz prev)) mx).
+Proof. exact adjusted_allow_tree. Qed.
+
+Theorem C14_adjusted_level : forall leaf conv pe e fuel votes n prev mx E a, sees leaf conv pe votes mx E ->
+  Overhang.level_overhang E fuel n prev = Some a ->
+  run_spec leaf conv (AdjLevel pe e fuel) votes (sa_npm (VInt n) (VDict (of_cz prev)) mx)
+  = run_spec leaf conv e votes (sa_npm (VInt (n + a)) (VDict (of_cz prev)) mx).
+Proof. exact adjusted_level_tree. Qed.
+
+(* satisfiable: a proportional evaluator that gives all seats to candidate 1, behind a converter and a VotingSystem; candidate 2
+   holds 3 seats from an earlier round - 3 overhang seats (AllowOverhang), and no house size levels them (LevelOverhang: fuel) *)
+Definition all_to_one (l : positive) (v : val) (args : list (option val)) : res val :=
+  match args with Some (VInt h) :: _ => Ok (VDict [(KC 1, VInt h)]) | _ => raise E_TYPE end.
+Example C14_adjusted_nonvacuous :
+  let pe := VSys (PreConv 7 (Leaf 1 LDist)) in
+  let E := fun h : Z => Some [(1%positive, h)] in
+  sees all_to_one id_conv pe (VDict []) (VDict []) E /\
+  Overhang.allow_overhang E 5 [(2%positive, 3)] = Some 3 /\
+  run_spec all_to_one id_conv (AdjAllow pe (Leaf 2 LDist)) (VDict []) (sa_npm (VInt 5) (VDict (of_cz [(2%positive, 3)])) (VDict []))
+  = Ok (VDict [(KC 1, VInt 8)]).
+Proof.
+  split; [|split; reflexivity].
+  intros h p H. inversion H; subst p. reflexivity.
+Qed.
+
 Print Assumptions C14_compose_partial.
+Print Assumptions C14_adjusted_allow.
+Print Assumptions C14_adjusted_level.
 Print Assumptions C14_totals_declarative.
 Print Assumptions C14_subset_declarative.
 Print Assumptions C14_parts_agree.
